@@ -9,16 +9,12 @@ Definition doc := list (oid * obj).
    with entries [E]; every entry leads where it should (table / xref stream / hybrid; in the file or in
    object streams; direct or referenced /Length: all inside [section_at], [good], [container]);
    the entries define the objects of [d] and, besides them, only xref-stream / object-stream containers. *)
-Record layout_of (d : doc) (root : oid) (p : pdf) (E : list xent) (c0 : ctx) : Prop := {
+Record layout_of (d : doc) (root : oid) (p : pdf) (E : list xent) : Prop := {
   lo_magic : p_magic p = true;
   lo_sect : exists sx, p_startxref p = Some sx /\ (sx <? p_flen p) = true /\
-                       section_at (p_file p) (p_flen p) [] sx c0 E (Some (ORef (fst root) (snd root))) None;
-  lo_private : forall id, ctx_get c0 id <> None ->
-     lookup_ent E (fst id) = None \/
-     exists e ofs nx ents rt pv, lookup_ent E (fst id) = Some e /\ x_id e = id /\ x_st e = XInUse ofs /\
-                                 find (p_file p) ofs = Some (IXStm id ents rt pv, nx);
-  lo_inuse : forall e ofs, In e (first_per_key E) -> x_st e = XInUse ofs -> ctx_get c0 (x_id e) = None ->
-     good (p_file p) (p_flen p) c0 (info_from_xref_entries (first_per_key E)) (x_id e) ofs;
+                       section_at (p_file p) (p_flen p) sx E (Some (ORef (fst root) (snd root))) None;
+  lo_inuse : forall e ofs, In e (first_per_key E) -> x_st e = XInUse ofs ->
+     good (p_file p) (p_flen p) [] (info_from_xref_entries (first_per_key E)) (x_id e) ofs;
   lo_members : forall e stm idx ms n v, In e (first_per_key E) -> x_st e = XInStream stm idx ->
      container (p_file p) E stm = Some ms -> In (n, v) ms -> exists idx', lookup_ent E n = Some (mkxent n 0 (XInStream stm idx'));
   lo_members_nodup : forall e stm idx ms, In e (first_per_key E) -> x_st e = XInStream stm idx ->
@@ -27,27 +23,24 @@ Record layout_of (d : doc) (root : oid) (p : pdf) (E : list xent) (c0 : ctx) : P
   lo_exact : forall id w, resolve (p_file p) E id = Some w ->
      (exists v, w = VObj v /\ In (id, v) d) \/ w = VXStm \/ (exists ms, w = VObjStm ms) }.
 
-Theorem load_document d root p E c0 :
-  layout_of d root p E c0 ->
+Theorem load_document d root p E :
+  layout_of d root p E ->
   exists c, load p = Loaded c root /\
             (forall id v, In (id, v) d -> ctx_get c id = Some (VObj v)) /\
             (forall id w, ctx_get c id = Some w -> (exists v, w = VObj v /\ In (id, v) d) \/ w = VXStm \/ (exists ms, w = VObjStm ms)).
 Proof.
-  intros [Hm (sx & Hs & Hb & SA) Hp Hi Hmem Hnd Hobjs Hex].
+  intros [Hm (sx & Hs & Hb & SA) Hi Hmem Hnd Hobjs Hex].
   assert (AE : all_ents [(sx, E, Some (ORef (fst root) (snd root)))] = E) by (unfold all_ents; cbn; apply app_nil_r).
-  destruct (load_history p [(sx, E, Some (ORef (fst root) (snd root)))] c0 (fst root) (snd root) sx Hm Hs Hb) as (c & L & K).
+  destruct (load_history p [(sx, E, Some (ORef (fst root) (snd root)))] (fst root) (snd root) sx Hm Hs Hb) as (c & L & K).
   - apply SS_last; assumption.
   - repeat constructor. intros [].
   - reflexivity.
-  - rewrite AE. exact Hp.
   - rewrite AE. exact Hi.
   - rewrite AE. exact Hmem.
   - rewrite AE. exact Hnd.
   - rewrite AE in K. exists c. destruct root as [rn rg]. split; [exact L|]. split.
     + intros id v H. rewrite K, (Hobjs _ _ H). reflexivity.
-    + intros id w H. rewrite K in H. destruct (resolve (p_file p) E id) as [w'|] eqn:R.
-      * inversion H; subst. eapply Hex, R.
-      * right. left. eapply section_at_xstm; [exact SA | | exact H]. intros ? ? G; discriminate.
+    + intros id w H. rewrite K in H. eapply Hex, H.
 Qed.
 
 (* ---------- refutations of the unrestricted statements, as theorems ---------- *)
@@ -61,15 +54,14 @@ Definition S_stale : list sect :=
    overwrites the new value since commit f218988) *)
 Theorem stale_member_refutes :
   p_magic w_stale_member = true /\ p_startxref w_stale_member = Some 316 /\
-  sections (p_file w_stale_member) (p_flen w_stale_member) [] 316 S_stale [((11, 0), VXStm)] /\
+  sections (p_file w_stale_member) (p_flen w_stale_member) 316 S_stale /\
   NoDup (map s_off S_stale) /\
   resolve (p_file w_stale_member) (all_ents S_stale) (6, 0) = Some (VObj (OInt 99)) /\
   resolve (p_file w_stale_member) (all_ents S_stale) (7, 0) = Some (VObj (OInt 2)) /\
   get (load w_stale_member) (6, 0) = Some (VObj (OInt 99)) /\ get (load w_stale_member) (7, 0) = None.
 Proof.
   split; [reflexivity|]. split; [reflexivity|]. split.
-  { eapply SS_cons; [reflexivity | eapply SA_table; reflexivity |].
-    eapply SS_last; [reflexivity|]. change [((11, 0), VXStm)] with (ctx_set [] (11, 0) VXStm). eapply SA_stream; reflexivity. }
+  { eapply SS_cons; [reflexivity | eapply SA_table; reflexivity |]. eapply SS_last; [reflexivity|]. eapply SA_stream; reflexivity. }
   split; [repeat constructor; cbn; intuition discriminate|].
   vm_compute. repeat split; reflexivity.
 Qed.
@@ -78,19 +70,17 @@ Definition S_shadow : list sect :=
   [(221, [mkxent 11 0 (XInUse 201)], Some (ORef 1 0));
    (50, [mkxent 0 65535 (XFree 0); mkxent 1 0 (XInUse 15); mkxent 11 0 (XInUse 50)], Some (ORef 1 0))].
 
-(* all hypotheses but (2): the base revision's xref stream is 11 0 and the update redefines 11 0 *)
-Theorem xref_stream_id_refutes :
-  p_magic w_xstm_shadow = true /\ p_startxref w_xstm_shadow = Some 221 /\
-  sections (p_file w_xstm_shadow) (p_flen w_xstm_shadow) [] 221 S_shadow [((11, 0), VXStm)] /\
-  NoDup (map s_off S_shadow) /\
+(* FIXED (commit 4807949): the base revision's xref stream is 11 0 and the update redefines 11 0: the newer
+   definition wins; two revisions whose xref streams are both 11 0 are loaded.  (Pinned tree: 11 0 stayed
+   bound to the old xref stream; the second file was rejected.) *)
+Theorem xref_stream_id_fixed :
+  sections (p_file w_xstm_shadow) (p_flen w_xstm_shadow) 221 S_shadow /\
   resolve (p_file w_xstm_shadow) (all_ents S_shadow) (11, 0) = Some (VObj (OInt 777)) /\
-  get (load w_xstm_shadow) (11, 0) = Some VXStm /\
-  load w_xstm_twice = Rejected.
+  get (load w_xstm_shadow) (11, 0) = Some (VObj (OInt 777)) /\
+  is_loaded (load w_xstm_twice) = true.
 Proof.
-  split; [reflexivity|]. split; [reflexivity|]. split.
-  { eapply SS_cons; [reflexivity | eapply SA_table; reflexivity |].
-    eapply SS_last; [reflexivity|]. change [((11, 0), VXStm)] with (ctx_set [] (11, 0) VXStm). eapply SA_stream; reflexivity. }
-  split; [repeat constructor; cbn; intuition discriminate|].
+  split.
+  { eapply SS_cons; [reflexivity | eapply SA_table; reflexivity |]. eapply SS_last; [reflexivity|]. eapply SA_stream; reflexivity. }
   vm_compute. repeat split; reflexivity.
 Qed.
 
@@ -102,12 +92,12 @@ Definition E_len : list xent :=
    has /Length 9 0 R with 9 0 = 3 stored in object stream 10 0: rejected *)
 Theorem length_in_objstm_refutes :
   p_magic w_len_in_objstm = true /\ p_startxref w_len_in_objstm = Some 193 /\
-  section_at (p_file w_len_in_objstm) (p_flen w_len_in_objstm) [] 193 [((11, 0), VXStm)] E_len (Some (ORef 1 0)) None /\
+  section_at (p_file w_len_in_objstm) (p_flen w_len_in_objstm) 193 E_len (Some (ORef 1 0)) None /\
   resolve (p_file w_len_in_objstm) E_len (3, 0) = Some (VObj (OStream [(B "Length", ORef 9 0)] (B "abc"))) /\
   resolve (p_file w_len_in_objstm) E_len (9, 0) = Some (VObj (OInt 3)) /\
   load w_len_in_objstm = Rejected.
 Proof.
   split; [reflexivity|]. split; [reflexivity|]. split.
-  { change [((11, 0), VXStm)] with (ctx_set [] (11, 0) VXStm). eapply SA_stream; reflexivity. }
+  { eapply SA_stream; reflexivity. }
   vm_compute. repeat split; reflexivity.
 Qed.
